@@ -23,6 +23,8 @@ Encoding (list of ints, identical on both sides; see obs_z / rec_z / observe in 
                         CheckLog [2; t; status; mask(dep_changed); #uptodate_false; no_deps; mask(missing_target);
                                   10*prev+cur checker or 0; mask(added) or -1; mask(removed) or -1;
                                   mask(missing_file_dep); mask(changed_file_dep)]
+                                 (the status of CheckLog is the one the FIRST reason decided -- the repaired DependencyStatus,
+                                  fixL of Model/Status.v --: the verdict `Check` gives on the same state, C03_get_log_agrees_every_verdict)
                         SaveOk [3; t; 0 | 10+f (missing file f) | 98]      ResetDep [4; t; 0 failed | 1 skip | 2 processed | 98]
   then -7, then for each task the logical DB record read back after close/re-open:
       [0] | [1; mask(deps) or -1; len(deps) or -1; checker 0/1/2; result id or -1; ignore] ++ 4 ints per file
